@@ -13,7 +13,10 @@
      IntroBeforeSubscribe the introduction request is published before the subscription is in place
      NoSelfRemove         Run returns without removing the tracker from its own picker
      ExpireInclusive      expiry at now >= expiry instead of now > expiry
-     DropSilently         dropNode forgets the node without telling the picker *)
+     DropSilently         dropNode forgets the node without telling the picker
+     ReplyToHeartbeat     a heartbeat of another node is answered like an introduction request: refuted by the liveness property ComesToRest
+                          (two nodes answer each other for ever; no clause of the monitor is ever broken -- it is the cluster never being
+                          at rest that is wrong) *)
 EXTENDS Integers, FiniteSets, Sequences, TLC
 CONSTANTS Nodes, U, E, MaxTime, MaxStarts, Deviation
 VARIABLES st, nodes, inbox, tickDue, nextTick, clock, muted, starts, observed, mon
@@ -71,9 +74,9 @@ Recv(t) ==
        \/ /\ k = "-" /\ inbox' = rest
           /\ nodes' = [nodes EXCEPT ![t] = [x \in DOMAIN @ \ {n} |-> @[x]]]
           /\ mon' = IF n \in DOMAIN nodes[t] /\ ~Dev("DropSilently") THEN M!SRem(mon, t, n) ELSE mon
-       \/ /\ (k = "+" \/ (k = "?" /\ (n = t \/ Dev("NoIntroReply")))) /\ inbox' = rest
+       \/ /\ ((k = "+" /\ ~(Dev("ReplyToHeartbeat") /\ n # t)) \/ (k = "?" /\ (n = t \/ Dev("NoIntroReply")))) /\ inbox' = rest
           /\ nodes' = [nodes EXCEPT ![t] = M!With(@, n, clock + E)] /\ mon' = Refresh(mon, t, n)
-       \/ /\ k = "?" /\ n # t /\ ~Dev("NoIntroReply")
+       \/ /\ ((k = "?" /\ ~Dev("NoIntroReply")) \/ (k = "+" /\ Dev("ReplyToHeartbeat"))) /\ n # t
           /\ nodes' = [nodes EXCEPT ![t] = M!With(@, n, clock + E)]
           /\ inbox' = Deliver(rest, t, "+", t) /\ mon' = M!SPub(Refresh(mon, t, n), t, "+", t, t \notin muted)
   /\ UNCHANGED <<st, tickDue, nextTick, clock, muted, starts, observed>>
@@ -95,6 +98,10 @@ Next == \/ \E t \in Nodes : Start(t) \/ Cancel(t) \/ Mute(t) \/ Unmute(t) \/ Int
         \/ \E d \in {1, U} : Advance(d)
         \/ Observe
 Spec == Init /\ [][Next]_vars
+\* liveness: whatever the environment did, the trackers' own steps come to an end and the cluster is looked at (no message storm)
+TrackerStep == \E t \in Nodes : Intro0(t) \/ Subscribe(t) \/ Intro(t) \/ Recv(t) \/ Tick(t) \/ Exit1(t) \/ Exit2(t)
+FairSpec == Spec /\ WF_vars(TrackerStep) /\ WF_vars(Observe)
+ComesToRest == []<>(Quiet /\ observed)
 MonitorQuiet == mon.bad = ""
 \* the tracker's map and its picker go together (what refreshNode / dropNode / expireNodes maintain)
 MapIsPicker == \A t \in Nodes : st[t] = "run" /\ ~Dev("AddAlways") /\ ~Dev("DropSilently") => DOMAIN nodes[t] = mon.member[t]
